@@ -97,6 +97,9 @@ func linOf(v ssa.Value, subst map[ssa.Value]ssa.Value, depth int) vlin {
 }
 
 func int64Of(k *ssa.Const) (int64, bool) {
+	if k == nil || k.Value == nil {
+		return 0, false
+	}
 	s := k.Value.ExactString()
 	var n int64
 	if _, err := fmt.Sscanf(s, "%d", &n); err == nil && fmt.Sprint(n) == s {
